@@ -7,9 +7,12 @@ import (
 	"flag"
 	"fmt"
 	"os"
+	"runtime"
+	"runtime/metrics"
 	"runtime/pprof"
 	"sort"
 	"strings"
+	"sync/atomic"
 	"time"
 
 	"verifharness/ev"
@@ -40,6 +43,7 @@ func main() {
 	replay := flag.String("replay", "", "replay file")
 	repo := flag.String("repo", "/repo", "library source dir (for testdata)")
 	skipUntil := flag.Int64("skip-until", 0, "resume: do not re-execute cases with sequence number <= this")
+	memcap := flag.Int64("memcap-mb", 0, "exit with status 7 when live heap exceeds this many MiB (resource-bound monitor; arms a ticker)")
 	cpuprof := flag.String("cpuprofile", "", "write a CPU profile")
 	flag.Parse()
 	gen.RepoDir = *repo
@@ -47,8 +51,17 @@ func main() {
 		f, _ := os.Create(*cpuprof)
 		pprof.StartCPUProfile(f)
 		defer pprof.StopCPUProfile()
+		if d := os.Getenv("VERIF_DEBUG_STOP_AFTER"); d != "" {
+			// profiling aid only (never set by the controller)
+			if sec, err := time.ParseDuration(d); err == nil {
+				go func() { time.Sleep(sec); pprof.StopCPUProfile(); os.Exit(0) }()
+			}
+		}
 	}
 
+	if *memcap > 0 {
+		go memMonitor(*memcap << 20)
+	}
 	r, ok := registry[*prop]
 	if !ok {
 		var ids []string
@@ -103,5 +116,39 @@ func main() {
 	if err := ctx.Finish(); err != nil {
 		fmt.Fprintln(os.Stderr, "finish:", err)
 		os.Exit(3)
+	}
+}
+
+// memMonitor enforces a resource bound on the calls under test: a traversal
+// that makes the live heap grow beyond the cap (orders of magnitude above any
+// input this worker handles) is not "bounded". The verdict is the byte count,
+// not elapsed time; the ticker only decides how soon it is noticed. The case
+// in flight is in the journal.
+// memArmed limits the monitor to the phases that are bounded by contract
+// (traversals of results); callers set it around those calls.
+var memArmed atomic.Bool
+
+func memMonitor(cap int64) {
+	samples := []metrics.Sample{{Name: "/memory/classes/heap/objects:bytes"}}
+	t := time.NewTicker(20 * time.Millisecond)
+	for range t.C {
+		if !memArmed.Load() {
+			continue
+		}
+		metrics.Read(samples)
+		if v := samples[0].Value; v.Kind() == metrics.KindUint64 && int64(v.Uint64()) > cap {
+			// the metric includes garbage that is not swept yet: collect, then judge the live heap
+			runtime.GC()
+			metrics.Read(samples)
+			v = samples[0].Value
+			if int64(v.Uint64()) <= cap || !memArmed.Load() {
+				continue
+			}
+			fmt.Fprintf(os.Stderr, "\nRESOURCE-BOUND-EXCEEDED live heap %d bytes > cap %d while executing the journaled case\n", v.Uint64(), cap)
+			buf := make([]byte, 1<<16)
+			n := runtime.Stack(buf, true)
+			os.Stderr.Write(buf[:n])
+			os.Exit(7)
+		}
 	}
 }
